@@ -321,7 +321,38 @@ def adapter_c09_script(stage, prop, h, r, unlisted, outdir):
     return Outcome(False, path, "the real front end agrees with the rule on the rendered script(s)")
 
 
-ADAPTERS = {"c07_text": adapter_c07_text, "c09_script": adapter_c09_script, "c07_local_range": adapter_c07_local_range, "c10_layout": adapter_c10_layout, "c11_align": adapter_c11_align, "c13_find": adapter_c13_find, "c13_replace": adapter_c13_replace}
+# ---- C02: provenance class -> program through the real pipeline (dev build poisons freed memory) ----
+_C02_SCRIPTS = {
+    "overwrite_c0": [('make x get "a" add "b"\nx get x\nshout(x)\n', ["ab"]),
+                     ('make x get "hello " add "world"\nmake y get 1\nx get x\nshout(x)\n', ["hello world"])],
+    "overwrite_c1": [('make x get "a" add "b"\nx get x add "c"\nshout(x)\n', ["abc"])],
+    "overwrite_c2": [('make x get "a" add "b"\nx get "lit"\nshout(x)\n', ["lit"])],
+    "relocate_alias_frame": [('do f(p) start\n  return p\nend\nshout(f("a" add "b"))\nmake t get "zz" add "zz"\nshout(f("c" add "d") add t)\n', ["ab", "cdzzzz"])],
+    "relocate_alias_slot": [('do f() start\n  make s get "a" add "b"\n  return s\nend\nshout(f())\nmake k get f()\nmake z get "zz" add "z"\nshout(k)\n', ["ab", "ab"])],
+    "relocate_host_result": [('do mk() start\n  return command("echo")\nend\nmake c get mk()\nmake z get "zz" add "zzzzzzzzzzzzzzzzzzzzzzzzzzzzzzzzzzzzzzzzzzzzzz"\nshout(c)\n',
+                              ['<process_command program="echo" args=0>'])],
+    "relocate_owned_frame": [('do f() start\n  return "a" add "b"\nend\nmake k get f()\nmake z get "zz" add "z"\nshout(k)\n', ["ab"])],
+}
+
+
+def adapter_c02_script(stage, prop, h, r, unlisted, outdir):
+    scripts = _C02_SCRIPTS.get(h.name, [])
+    tried = []
+    for script, want in scripts:
+        for rel in (False, True):
+            for mode in ("analysis", "plain"):
+                rc, out = run_script(stage, script, mode=mode, release=rel, timeout=30)
+                got = [l[4:] for l in out.splitlines() if l.startswith("OUT:")]
+                tried.append({"script": script, "release": rel, "mode": mode, "rc": rc, "got": got, "want": want, "tail": out[-300:]})
+                if crashed(rc) or got != want:
+                    path = _save(outdir, prop, h, {"kind": "script", "script": script, "expect_out": want, "runs": tried})
+                    return Outcome(True, path, "program %r: expected output %r, got %r (rc=%d, %s build)" % (
+                        script, want, got, rc, "release" if rel else "dev"))
+    path = _save(outdir, prop, h, {"kind": "script", "script": scripts[0][0] if scripts else "", "expect_out": scripts[0][1] if scripts else [], "runs": tried})
+    return Outcome(False, path, "the real pipeline prints the expected values for the programs of this class")
+
+
+ADAPTERS = {"c02_script": adapter_c02_script, "c07_text": adapter_c07_text, "c09_script": adapter_c09_script, "c07_local_range": adapter_c07_local_range, "c10_layout": adapter_c10_layout, "c11_align": adapter_c11_align, "c13_find": adapter_c13_find, "c13_replace": adapter_c13_replace}
 
 
 def replay_file(art, path):
